@@ -184,7 +184,7 @@ class LocationTableEntry:
             self.is_neighbour = False
 
     def update_with_gbc_packet(
-        self, packet: bytes, gbc_extended_header: GBCExtendedHeader
+        self, packet: bytes, gbc_extended_header: GBCExtendedHeader, is_new_entry: bool
     ) -> None:
         """
         Updates the entry with a SHB packet.
@@ -197,6 +197,9 @@ class LocationTableEntry:
             GBC packet (without the basic header, the common header and the extended header).
         gbc_extended_header : GBCExtendedHeader
             GBC extended header.
+        is_new_entry : bool
+            True when this LocTE was just created; IS_NEIGHBOUR is set to FALSE only then
+            (§10.3.11.3 step 5b) and left unchanged for an existing entry (NOTE), as for TSB/GAC.
 
         Raises
         ------
@@ -212,8 +215,9 @@ class LocationTableEntry:
         self.update_position_vector(position_vector)
         # step 5
         self.update_pdr(position_vector, (len(packet) + 8 + 4))
-        # step 6
-        self.is_neighbour = False
+        # step 6 – IS_NEIGHBOUR = FALSE only for new entries (unchanged otherwise)
+        if is_new_entry:
+            self.is_neighbour = False
 
     def check_duplicate_sn(self, sn: int) -> None:
         """
@@ -604,10 +608,12 @@ class LocationTable:
         with self.loc_t_lock:
             entry: LocationTableEntry | None = self.get_entry(
                 gbc_extended_header.so_pv.gn_addr)
-            if entry is None:
+            is_new_entry = entry is None
+            if is_new_entry:
                 entry = LocationTableEntry(self.mib)
                 self.loc_t[gbc_extended_header.so_pv.gn_addr] = entry
-        entry.update_with_gbc_packet(packet, gbc_extended_header)
+        assert entry is not None
+        entry.update_with_gbc_packet(packet, gbc_extended_header, is_new_entry)
         self.refresh_table()
 
     def get_neighbours(self) -> list[LocationTableEntry]:
